@@ -21,18 +21,18 @@ ID = 'C16'
 RULE = ('Include graphs of 1-6 files in a fresh temporary directory tree (sub-directories; include edges by literal relative path, '
         '".." path and glob *.bean / **/*.bean / ??.bean; cycles, diamonds, self-includes), file contents from G1 with LF, CRLF or mixed '
         'line ends (and carriage returns inside strings), root spelled bare / ./ / with a redundant sub/../ / absolute, as str or Path; a body '
-        'that edits a subset of the files (token value, appended directive, assignment of an equal value), removes entries, adds entries (existing '
+        'that edits a subset of the files (token value, appended directive, removed inline comment, assignment of an equal value), removes entries, adds entries (existing '
         'or new directory) and optionally raises; edit_file on single files with the same dimensions. Oracle: bytes, mtime_ns and inode of every '
         'file recorded before; afterwards a changed file holds exactly the text the harness obtains by applying the same edit to its own exact '
         '(untranslated) reading of the file, unchanged files are not rewritten, removed entries are gone, added entries exist, the mapping keys '
-        'are the normalised reachable set computed by the harness from the graph, every file is parsed exactly once, a file with exactly one effective edit differs from its old bytes only by the shape of that edit (pure insertion for an appended directive, date characters only for a re-valued date, within one line for a re-worded comment; independent of the model operations), and a raising body '
+        'are the normalised reachable set computed by the harness from the graph, every file is parsed exactly once, a file with exactly one effective edit differs from its old bytes only by the shape of that edit (pure insertion for an appended directive, date characters only for a re-valued date, within one line for a re-worded comment, exactly the blanks and the comment for a removed inline comment; independent of the model operations), and a raising body '
         'leaves every file untouched. Non-trivial = >= 3 files with a cycle, diamond or glob; or CR content with an edit; or a non-absolute '
         'root spelling; or a raising body after an edit. Editing-sessions job: one ledger of one-line transactions (3-30 lines with store blocks of 4 tokens, 50-1500 lines with the real block size; LF or CRLF), '
         '3-40 edits inside one edit_file block (tags appended, directives deleted at the beginning / end / anywhere, directives appended); oracle: the non-empty lines of the written file equal the list of lines '
         'the harness maintains with string operations only; non-trivial = >= 5 edits.')
 ASSUMPTIONS = ['symlinks, absolute includes under a relative root, non-UTF-8 and unwritable files are not generated (the property does not speak about them)']
 SHRINK_LISTS = ('edits', 'session')
-REQUIRED_CLASSES = ('session:lf:4', 'session:lf:1000', 'session:crlf', 'shape:append', 'shape:tokval', 'shape:comment', 'spelling:symlink', 'workspace-dir-with-glob-chars', 'mode:recursive', 'mode:single', 'cr-content-edited', 'spelling:bare', 'spelling:abs', 'glob', 'cycle', 'raise-after-edit',
+REQUIRED_CLASSES = ('shape:uncomment', 'session:lf:4', 'session:lf:1000', 'session:crlf', 'shape:append', 'shape:tokval', 'shape:comment', 'spelling:symlink', 'workspace-dir-with-glob-chars', 'mode:recursive', 'mode:single', 'cr-content-edited', 'spelling:bare', 'spelling:abs', 'glob', 'cycle', 'raise-after-edit',
                     'removed-entry', 'added-entry')
 
 OLD_NS = 1_000_000_000 * 10 ** 9 // 10 ** 9 * 10 ** 9  # a fixed old mtime (2001)
@@ -127,6 +127,13 @@ def apply_edit(file: Any, kind: str) -> bool:
                 old = t.raw_text
                 t.value = 'edited'
                 return t.raw_text != old
+        return False
+    if kind == 'uncomment':
+        # remove the inline comment of the first directive that has one (through the value-level property)
+        for d in file.raw_directives:
+            if getattr(d, 'inline_comment', None) is not None:
+                d.inline_comment = None
+                return True
         return False
     if kind == 'same':
         for t in O.store_tokens(file.token_store):
@@ -289,7 +296,7 @@ def _run(case: dict, res: Result, tmp: str) -> Result:
         if mode == 'single':
             with ed.edit_file(arg) as f:
                 for e in edits:
-                    if e['kind'] in ('append', 'tokval', 'same', 'read', 'comment'):
+                    if e['kind'] in ('append', 'tokval', 'same', 'read', 'comment', 'uncomment'):
                         if apply_edit(f, e['kind']):
                             changed.add(os.path.normpath(root))
                 if will_raise:
@@ -321,7 +328,7 @@ def _run(case: dict, res: Result, tmp: str) -> Result:
                     if not names:
                         break
                     name = names[e.get('file', 0) % len(names)]
-                    if e['kind'] in ('append', 'tokval', 'same', 'read', 'comment'):
+                    if e['kind'] in ('append', 'tokval', 'same', 'read', 'comment', 'uncomment'):
                         if apply_edit(fs[key_of(name)], e['kind']):
                             changed.add(name)
                     elif e['kind'] == 'remove' and spelling == 'symlink' and os.path.normpath(name) == os.path.normpath(root):
@@ -358,7 +365,7 @@ def _run(case: dict, res: Result, tmp: str) -> Result:
                 if not names:
                     break
                 name = names[e.get('file', 0) % len(names)]
-            if e['kind'] in ('append', 'tokval', 'same', 'read', 'comment'):
+            if e['kind'] in ('append', 'tokval', 'same', 'read', 'comment', 'uncomment'):
                 if apply_edit(models_h[name], e['kind']):
                     effective.setdefault(name, []).append(e['kind'])
             elif e['kind'] == 'remove' and spelling == 'symlink' and os.path.normpath(name) == os.path.normpath(root):
@@ -412,6 +419,7 @@ def _run(case: dict, res: Result, tmp: str) -> Result:
                 classes.add('shape:' + kind)
                 ok = (w0 == b'' if kind == 'append' else
                       (not w0.strip(b'0123456789-/') and not w1.strip(b'0123456789-/')) or w0 == b'' if kind == 'tokval' else
+                      w1 == b'' and re.fullmatch(rb'[ \t]*;[^\r\n]*', w0) is not None if kind == 'uncomment' else
                       b'\n' not in w0 and b'\n' not in w1)
                 if not ok:
                     res.bad(f'content-shape:{kind}', f'{name}: one {kind!r} edit, but the bytes differ by {w0[:200]!r} -> {w1[:200]!r} (outside the common prefix of '
@@ -519,7 +527,7 @@ def _build(tier: str):
         # globs must match something: '??.bean' needs a two-letter file in that directory
         edits = []
         for _ in range(g.pick([0, 1, 1, 2, 3])):
-            k = g.pick(['append', 'tokval', 'tokval', 'comment', 'comment', 'same', 'read'] + ([] if single else ['remove', 'add']))
+            k = g.pick(['append', 'tokval', 'tokval', 'comment', 'comment', 'uncomment', 'same', 'read'] + ([] if single else ['remove', 'add']))
             e: dict = {'kind': k, 'file': g.n(0, 5)}
             if k == 'add':
                 e['name'] = g.pick(['new.bean', 'sub/new.bean', 'brand/new/x.bean'])
